@@ -33,31 +33,43 @@ theorem perm_some_justified {s : State} {req sec : Nat} {p : Level} (hp : s.perm
   obtain ⟨e, hw⟩ := permLevel_sound _ _ _ _ _ (entNode_ne_secNode req sec) hp
   exact ⟨p, e, hw, Nat.le_refl _, trivial⟩
 
-theorem checkAccess_ok {s : State} {req sec : Nat} {need : Level}
-    (h : s.checkAccess req sec need = .ok ()) (hr : req ≠ root) :
-    Justified s req sec need (fun _ => True) := by
-  unfold State.checkAccess at h
-  rw [if_neg hr] at h
+theorem checkGraph_ok {s : State} {req sec : Nat} {need : Level}
+    (h : s.checkGraph req sec need = .ok ()) : Justified s req sec need (fun _ => True) := by
+  unfold State.checkGraph at h
   cases hp : s.perm req sec with
   | none => rw [hp] at h; simp only at h; split at h <;> cases h
   | some p =>
     rw [hp] at h; simp only at h
     by_cases ha : p.allows need = true
-    · obtain ⟨l, e, hw, _, _⟩ := perm_some_justified hp
-      have : need.toNat ≤ p.toNat := by simpa [Level.allows] using ha
+    · have : need.toNat ≤ p.toNat := by simpa [Level.allows] using ha
       obtain ⟨e', hw'⟩ := permLevel_sound _ _ _ _ _ (entNode_ne_secNode req sec) hp
       exact ⟨p, e', hw', this, trivial⟩
     · rw [if_neg ha] at h; split at h <;> cases h
 
+/-- a non-root caller that passes `check_access_with_permission` passed it in the state `cleanup now` -/
+theorem checkAccess_ok {s s' : State} {now req sec : Nat} {need : Level}
+    (h : s.checkAccess now req sec need = (s', .ok ())) (hr : req ≠ root) :
+    s' = s.cleanup now ∧ Justified (s.cleanup now) req sec need (fun _ => True) := by
+  unfold State.checkAccess at h
+  rw [if_neg hr] at h
+  simp only [Prod.mk.injEq] at h
+  exact ⟨h.1.symm, checkGraph_ok h.2⟩
+
+/-- the state a check leaves behind: untouched for root, `cleanup now` for anybody else -/
+theorem checkAccess_fst (s : State) (now req sec : Nat) (need : Level) :
+    (s.checkAccess now req sec need).1 = if req = root then s else s.cleanup now := by
+  unfold State.checkAccess
+  split <;> rfl
+
 theorem level_one_le (l : Level) : Level.read.toNat ≤ l.toNat := by
   cases l <;> simp [Level.toNat]
 
-theorem hasAccess_justified {s : State} {req sec : Nat} (h : s.hasAccess req sec = true) (hr : req ≠ root) :
-    Justified s req sec .read (fun _ => True) := by
+theorem hasAccess_justified {s : State} {now req sec : Nat} (h : s.hasAccess now req sec = true) (hr : req ≠ root) :
+    Justified (s.cleanup now) req sec .read (fun _ => True) := by
   unfold State.hasAccess at h
-  have h2 : (s.perm req sec).isSome = true := by
+  have h2 : ((s.cleanup now).perm req sec).isSome = true := by
     simpa [hr] using h
-  cases hp : s.perm req sec with
+  cases hp : (s.cleanup now).perm req sec with
   | none => rw [hp] at h2; cases h2
   | some p =>
     obtain ⟨l, e, hw, _, _⟩ := perm_some_justified hp
@@ -121,100 +133,118 @@ theorem mem_dropAccess {g : Graph} {ent sec : Nat} {e : Edge} :
     | false => rfl
     | true => exact absurd ⟨a, b, hc⟩ h2
 
+/-! ### `guarded`: the `check_access_with_permission(..)?` prefix shared by every guarded operation -/
+
+theorem guarded_cases (s : State) (now req sec : Nat) (need : Level) (k : State → State × Resp) :
+    (∃ e, s.guarded now req sec need k = ((s.checkAccess now req sec need).1, .err e)) ∨
+    ((s.checkAccess now req sec need).2 = .ok () ∧
+      s.guarded now req sec need k = k (s.checkAccess now req sec need).1) := by
+  unfold State.guarded
+  split
+  · rename_i s' e heq; rw [heq]; exact Or.inl ⟨e, rfl⟩
+  · rename_i s' u heq; rw [heq]; exact Or.inr ⟨rfl, rfl⟩
+
+/-- an invariant kept by `cleanup` and by the guarded body is kept by the guarded operation -/
+theorem guarded_inv (P : State → Prop) {s : State} {now req sec : Nat} {need : Level} {k : State → State × Resp}
+    (hs : P s) (hc : P (s.cleanup now)) (hk : ∀ s', P s' → P (k s').1) : P (s.guarded now req sec need k).1 := by
+  have hfst : P (s.checkAccess now req sec need).1 := by
+    rw [checkAccess_fst]; split
+    · exact hs
+    · exact hc
+  rcases guarded_cases s now req sec need k with ⟨e, h⟩ | ⟨_, h⟩
+  · rw [h]; exact hfst
+  · rw [h]; exact hk _ hfst
+
+/-- a successful guarded operation passed the check, and its body succeeded on the checked state -/
+theorem guarded_ok {s : State} {now req sec : Nat} {need : Level} {k : State → State × Resp}
+    (h : (s.guarded now req sec need k).2.isOk = true) :
+    (s.checkAccess now req sec need).2 = .ok () ∧ s.guarded now req sec need k = k (s.checkAccess now req sec need).1 := by
+  rcases guarded_cases s now req sec need k with ⟨e, h'⟩ | h'
+  · rw [h'] at h; cases h
+  · exact h'
+
+theorem guarded_justified {s : State} {now req sec : Nat} {need : Level} {k : State → State × Resp}
+    (h : (s.guarded now req sec need k).2.isOk = true) (hr : req ≠ root) :
+    Justified (s.cleanup now) req sec need (fun _ => True) :=
+  (checkAccess_ok (s' := (s.checkAccess now req sec need).1) (by rw [← (guarded_ok h).1]) hr).2
+
 /-! ### outcome lemmas: a successful call passed exactly the level check the code performs -/
 
-theorem set_ok {s : State} {req sec val size : Nat} (h : (s.set req sec val size).2.isOk = true)
-    (hr : req ≠ root) : s.checkAccess req sec .write = .ok () ∧ s.exists sec = true := by
+theorem set_ok {s : State} {now req sec val size : Nat} (h : (s.set now req sec val size).2.isOk = true)
+    (hr : req ≠ root) : Justified (s.cleanup now) req sec .write (fun _ => True) := by
   unfold State.set at h
   split at h
   · cases h
   · split at h
-    · rename_i m hm
-      split at h
-      · cases h
-      · rename_i hc
-        refine ⟨hc, ?_⟩
-        unfold State.exists; rw [hm]; rfl
+    · exact guarded_justified h hr
     · first | cases h | (split at h <;> first | cases h | contradiction)
 
-theorem get_ok {s : State} {now req sec : Nat} (h : (s.get now req sec).2.isOk = true) :
-    (s.cleanup now).checkAccess req sec .read = .ok () := by
+theorem get_ok {s : State} {now req sec : Nat} (h : (s.get now req sec).2.isOk = true) (hr : req ≠ root) :
+    Justified ((s.cleanup now).cleanup now) req sec .read (fun _ => True) := by
   unfold State.get at h
-  simp only at h
-  split at h
-  · cases h
-  · rename_i hc; exact hc
+  exact guarded_justified h hr
 
-theorem get_graph (s : State) (now req sec : Nat) : (s.get now req sec).1.graph = (s.cleanup now).graph := by
-  unfold State.get
-  simp only
-  split
-  · rfl
-  · split <;> rfl
-
-theorem rotate_ok {s : State} {req sec val size : Nat} (h : (s.rotate req sec val size).2.isOk = true) :
-    s.checkAccess req sec .write = .ok () := by
+theorem rotate_ok {s : State} {now req sec val size : Nat} (h : (s.rotate now req sec val size).2.isOk = true)
+    (hr : req ≠ root) : Justified (s.cleanup now) req sec .write (fun _ => True) := by
   unfold State.rotate at h
-  split at h
-  · cases h
-  · rename_i hc; exact hc
+  exact guarded_justified h hr
 
-theorem delete_ok {s : State} {req sec : Nat} (h : (s.delete req sec).2.isOk = true) :
-    s.checkAccess req sec .admin = .ok () := by
+theorem delete_ok {s : State} {now req sec : Nat} (h : (s.delete now req sec).2.isOk = true)
+    (hr : req ≠ root) : Justified (s.cleanup now) req sec .admin (fun _ => True) := by
   unfold State.delete at h
-  split at h
-  · cases h
-  · rename_i hc; exact hc
+  exact guarded_justified h hr
 
-theorem grantCore_ok {s s' : State} {req ent sec : Nat} {l : Level} {x : Option Nat}
-    (h : s.grantCore req ent sec l x = .ok s') : s.checkAccess req sec .admin = .ok () := by
+theorem grantCore_ok {s : State} {now req ent sec : Nat} {l : Level} {x : Option Nat}
+    (h : (s.grantCore now req ent sec l x).2.isOk = true) (hr : req ≠ root) :
+    Justified (s.cleanup now) req sec .admin (fun _ => True) := by
   unfold State.grantCore at h
-  split at h
-  · cases h
-  · rename_i hc; exact hc
+  exact guarded_justified h hr
 
-theorem grant_ok {s : State} {req ent sec : Nat} {l : Level} (h : (s.grant req ent sec l).2.isOk = true) :
-    s.checkAccess req sec .admin = .ok () := by
-  unfold State.grant at h
-  split at h
-  · cases h
-  · rename_i hc; exact grantCore_ok hc
+theorem grant_ok {s : State} {now req ent sec : Nat} {l : Level} (h : (s.grant now req ent sec l).2.isOk = true)
+    (hr : req ≠ root) : Justified (s.cleanup now) req sec .admin (fun _ => True) :=
+  grantCore_ok (by unfold State.grant at h; exact h) hr
 
 theorem grantTtl_ok {s : State} {now req ent sec ttl : Nat} {l : Level}
-    (h : (s.grantTtl now req ent sec l ttl).2.isOk = true) : s.checkAccess req sec .admin = .ok () := by
+    (h : (s.grantTtl now req ent sec l ttl).2.isOk = true) (hr : req ≠ root) :
+    Justified (s.cleanup now) req sec .admin (fun _ => True) := by
+  apply grantCore_ok (x := some (now + ttl)) (l := l) (ent := ent) _ hr
   unfold State.grantTtl at h
   split at h
   · cases h
-  · rename_i hc; exact grantCore_ok hc
+  · rename_i s' r hne heq
+    rw [heq]
+    cases r with
+    | err e => exact absurd rfl (hne e)
+    | _ => rfl
 
-theorem revoke_ok {s : State} {req ent sec : Nat} (h : (s.revoke req ent sec).2.isOk = true) :
-    s.checkAccess req sec .admin = .ok () := by
+theorem revoke_ok {s : State} {now req ent sec : Nat} (h : (s.revoke now req ent sec).2.isOk = true)
+    (hr : req ≠ root) : Justified (s.cleanup now) req sec .admin (fun _ => True) := by
   unfold State.revoke at h
-  split at h
-  · cases h
-  · rename_i hc; exact hc
+  exact guarded_justified h hr
 
-theorem revoke_graph {s : State} {req ent sec : Nat} (h : (s.revoke req ent sec).2.isOk = true) :
-    (s.revoke req ent sec).1.graph = dropAccess s.graph ent sec := by
-  have hc := revoke_ok h
-  unfold State.revoke
-  rw [hc]
+/-- after a successful `revoke` no VAULT_ACCESS edge entity → secret is left -/
+theorem revoke_graph {s : State} {now req ent sec : Nat} (h : (s.revoke now req ent sec).2.isOk = true) :
+    ∃ s' : State, (s.revoke now req ent sec).1.graph = dropAccess s'.graph ent sec := by
+  unfold State.revoke at h ⊢
+  rw [(guarded_ok h).2]
+  refine ⟨(s.checkAccess now req sec .admin).1, ?_⟩
   simp only [audit_graph]
   split <;> simp
 
-theorem delete_graph {s : State} {req sec : Nat} (h : (s.delete req sec).2.isOk = true) :
-    (s.delete req sec).1.graph = s.graph.filter (fun e => e.dst ≠ secNode sec) := by
-  have hc := delete_ok h
+/-- after a successful `delete` no edge at all points at the secret node -/
+theorem delete_graph {s : State} {now req sec : Nat} (h : (s.delete now req sec).2.isOk = true) :
+    ∃ s' : State, (s.delete now req sec).1.graph = s'.graph.filter (fun e => e.dst ≠ secNode sec) := by
   unfold State.delete at h ⊢
-  rw [hc] at h ⊢
-  simp only at h ⊢
-  cases hf : s.findSecret sec with
+  have h2 := (guarded_ok h).2
+  rw [h2] at h ⊢
+  refine ⟨(s.checkAccess now req sec .admin).1, ?_⟩
+  cases hf : (s.checkAccess now req sec .admin).1.findSecret sec with
   | none => rw [hf] at h; cases h
   | some m => simp
 
-theorem delegCheck_ok {s : State} {parent : Nat} {l : Level} :
-    ∀ {secs : List Nat}, s.delegCheck parent l secs = .ok () →
-      ∀ sec ∈ secs, ∃ p, s.getPermission parent sec = some p ∧ l.toNat ≤ p.toNat
+theorem delegCheck_ok {s : State} {now parent : Nat} {l : Level} :
+    ∀ {secs : List Nat}, s.delegCheck now parent l secs = .ok () →
+      ∀ sec ∈ secs, ∃ p, s.getPermission now parent sec = some p ∧ l.toNat ≤ p.toNat
   | [], _, _, hm => nomatch hm
   | sec :: rest, h, x, hm => by
     unfold State.delegCheck at h
@@ -229,15 +259,60 @@ theorem delegCheck_ok {s : State} {parent : Nat} {l : Level} :
       · rw [if_neg ha] at h; cases h
 
 theorem delegate_ok {s : State} {now parent child : Nat} {secs : List Nat} {l : Level} {ttl : Option Nat}
-    (h : (s.delegate now parent child secs l ttl).2.isOk = true) : s.delegCheck parent l secs = .ok () := by
+    (h : (s.delegate now parent child secs l ttl).2.isOk = true) : s.delegCheck now parent l secs = .ok () := by
   unfold State.delegate at h
+  simp only at h
   split at h
   · cases h
   · rename_i hc; exact hc
 
+theorem delegate_eq_apply {s : State} {now parent child : Nat} {secs : List Nat} {l : Level} {ttl : Option Nat}
+    (h : s.delegCheck now parent l secs = .ok ()) :
+    s.delegate now parent child secs l ttl =
+      (if parent = root || secs.isEmpty then s else s.cleanup now).delegateApply now parent child secs
+        (s.delegEff now parent l secs) ttl := by
+  unfold State.delegate
+  simp only [h]
+
+theorem foldl_min_le (f : Nat → Level) : ∀ (secs : List Nat) (l : Level),
+    (secs.foldl (fun acc sec => if (f sec).toNat < acc.toNat then f sec else acc) l).toNat ≤ l.toNat
+  | [], _ => Nat.le_refl _
+  | x :: xs, l => by
+    rw [List.foldl_cons]
+    refine Nat.le_trans (foldl_min_le f xs _) ?_
+    split <;> omega
+
+/-- the effective delegation level never exceeds the requested one -/
+theorem delegEff_le (s : State) (now parent : Nat) (l : Level) (secs : List Nat) :
+    (s.delegEff now parent l secs).toNat ≤ l.toNat :=
+  foldl_min_le (fun sec => (s.getPermission now parent sec).getD .read) secs l
+
+theorem delegateApply_resp {s : State} {now parent child : Nat} {secs : List Nat} {eff : Level} {ttl : Option Nat}
+    (h : (s.delegateApply now parent child secs eff ttl).2.isOk = true) :
+    (s.delegateApply now parent child secs eff ttl).2 = .level eff := by
+  unfold State.delegateApply at h ⊢
+  by_cases h1 : parent = child
+  · rw [if_pos h1] at h; cases h
+  · rw [if_neg h1] at h ⊢
+    by_cases h2 : isAncestor s.delegs child (s.delegs.length + 1) parent [parent] = true
+    · rw [if_pos h2] at h; cases h
+    · rw [if_neg h2] at h ⊢
+      simp only at h ⊢
+      by_cases h3 : delegDepth s.delegs parent + 1 > s.maxDeleg
+      · rw [if_pos h3] at h; cases h
+      · rw [if_neg h3]
+
+/-- a successful `delegate` answers with the effective level -/
+theorem delegate_resp {s : State} {now parent child : Nat} {secs : List Nat} {l : Level} {ttl : Option Nat}
+    (h : (s.delegate now parent child secs l ttl).2.isOk = true) :
+    (s.delegate now parent child secs l ttl).2 = .level (s.delegEff now parent l secs) := by
+  have hc := delegate_ok h
+  rw [delegate_eq_apply hc] at h ⊢
+  exact delegateApply_resp h
+
 theorem list_names {s : State} {now req : Nat} {p : Pattern} {names : List Nat}
     (h : (s.list now req p).2 = .names names) :
-    ∀ n ∈ names, (s.cleanup now).hasAccess req n = true := by
+    ∀ n ∈ names, (s.cleanup now).hasAccess now req n = true := by
   unfold State.list at h
   simp only at h
   cases h
